@@ -29,7 +29,7 @@ ASSUMPTIONS = [
 BUDGET = {"quick": 75, "thorough": 900}
 ROUNDS = {"thorough": 8}
 FLOORS = {"pairs_compared": {"quick": 1500, "thorough": 15000}, "rerootings": {"quick": 200, "thorough": 2000},
-          "relations": 13}
+          "relations": 17}
 
 
 def cases(tier, seed):
@@ -53,6 +53,15 @@ def cases(tier, seed):
             if any(nd.length is None for nd in rt.postorder(root) if nd.parent is not None):
                 rt.set_lengths(root, rng, 1e-3, 1.0)
                 c["newick"] = rt.to_newick(root)
+        if tree_kind == "time" and i % 4 == 1:
+            # branch lengths as a file would hold them (two decimals): no longer exactly consistent with the tip dates, so the children
+            # of a node imply different heights for it; whatever the library makes of that, it is the same tree however it is written
+            root = rt.parse_newick(c["newick"])
+            for nd in rt.postorder(root):
+                if nd.parent is not None and nd.length is not None:
+                    nd.length = max(0.01, round(nd.length * float(rng.uniform(0.9, 1.1)), 2))
+            c["newick"] = rt.to_newick(root)
+            c["rounded_newick"] = True
         c["orbit_seed"] = int(rng.integers(2**31))
         out.append(c)
     return out
@@ -142,6 +151,21 @@ def orbit(case):
     v = copy.deepcopy(case)
     v["aln_taxa_order"] = [case["names"][i] for i in rng.permutation(n)]
     out.append(("alignment-taxa-object", v, 1.0))
+    # 6c the alignment read from a FASTA file (sequences wrapped over several lines, blank lines between records) instead of inline
+    v = copy.deepcopy(case)
+    v["aln_file"] = {"wrap": int(rng.choice([0, 1, 3, 7, 60])), "blank": bool(rng.random() < 0.5)}
+    out.append(("alignment-file", v, 1.0))
+    # 6d discrete trait: one symbol per taxon, given as a one-column alignment and as a taxon attribute (AttributePattern), tip partials and tip states
+    if case["datatype"]["kind"] == "general":
+        va = copy.deepcopy(case)
+        va["seqs"] = {nm: sq[:1] for nm, sq in case["seqs"].items()}
+        out.append(("one-column-alignment", va, None))
+        vb = phylo.as_attribute_case(case)
+        out.append(("trait-attribute", vb, "one-column-alignment"))
+        if not case["use_ambiguities"]:
+            vc = phylo.as_attribute_case(case)
+            vc["use_tip_states"] = not case["use_tip_states"]
+            out.append(("trait-attribute-tip-representation", vc, "one-column-alignment"))
     # 7 all of the above at once
     v = copy.deepcopy(case)
     v["names"] = [case["names"][i] for i in rng.permutation(n)]
@@ -204,8 +228,12 @@ def run_case(case):
         emp = (sm._rates.detach().numpy().astype(float), sm.frequencies.detach().numpy().astype(float))
     n = len(case["names"])
     S = gm.n_states(case["subst"])
-    ref, _, method = phylo.ref_loglik(case, "brute" if S ** (n - 1) <= 5000 else "pruning", emp)
-    C["anchored_to_reference"] += 1
+    if case.get("rounded_newick"):
+        ref = float("nan")  # node heights of an inconsistent Newick are the library's choice: the members are compared with each other only
+        C["rounded_newicks"] = 1
+    else:
+        ref, _, method = phylo.ref_loglik(case, "brute" if S ** (n - 1) <= 5000 else "pruning", emp)
+        C["anchored_to_reference"] += 1
     known_p0 = False
     if np.isfinite(ref) and abs(base - ref) > 1e-9 * max(1.0, abs(ref)):
         V.append(tt.viol("C02:base-differs-from-reference", "base member %.15g differs from the exact marginalisation %.15g (see C01)" % (base, ref), case=case))
